@@ -3,6 +3,8 @@ import LyModel.Props.C10
 #print axioms LyModel.Props.C10.yang_encode_roundtrip_fails_cr
 #print axioms LyModel.Props.C10.yang_text_roundtrip_partial
 #print axioms LyModel.Props.C10.yang_text_roundtrip_fails_F50
+#print axioms LyModel.Props.C10.yang_text_roundtrip_fails_F82
 #print axioms LyModel.Props.C10.stmt_tree_roundtrip
 #print axioms LyModel.Props.C10.stmt_tree_roundtrip_input_fuel
 #print axioms LyModel.Props.C10.stmt_roundtrip
+#print axioms LyModel.Props.C10.stmt_tree_roundtrip_vacuous_for_keywordlike_prefix
